@@ -217,10 +217,11 @@ class BaseTemplate:
         init = program[PROGRAM_NAME]
         functions = init(*builtins)
 
-        # Macros of a previously cooked version are gone
+        # Macros of a previously cooked version are gone (a concurrent
+        # caller cooking the same version may have removed them already)
         for name in tuple(self.__dict__):
             if name.startswith('_render_') and name[1:] not in functions:
-                del self.__dict__[name]
+                self.__dict__.pop(name, None)
 
         for name, function in functions.items():
             setattr(self, "_" + name, function)
